@@ -84,6 +84,23 @@ pub fn drive(args: &[String]) {
                 let pu = sgr_params(&enc(ColorDepth::TrueColor, TerminalCommand::FaceModify(m))).unwrap_or_default();
                 ok &= pu.len() == 5 && pu[..4] == [58, 2, r as u32, g as u32];
                 tcf.push(*pu.last().unwrap_or(&999));
+                // all roles in ONE command (reset, fg, bg, underline style and colour: the longest parameter list the
+                // encoder produces): every role still carries its colour - exactly in true colour, and in 256-colour
+                // mode the same entries as when the role is sent alone
+                if *b % 16 == (r ^ g) % 16 {
+                    let (c2, c3) = (RGBA::new(g, *b, r, 255), RGBA::new(*b, r, g, 255));
+                    let all = FaceModify { reset: true, fg: Some(c), bg: Some(c2), underline: Some(surf_n_term::UnderlineStyle::Curly), underline_color: Some(c3),
+                                           bold: Some(true), italic: Some(false), ..FaceModify::default() };
+                    let has = |p: &[u32], grp: &[u32]| p.windows(grp.len()).any(|w| w == grp);
+                    let p = sgr_params(&enc(ColorDepth::TrueColor, TerminalCommand::FaceModify(all))).unwrap_or_default();
+                    ok &= has(&p, &[38, 2, r as u32, g as u32, *b as u32]) && has(&p, &[48, 2, g as u32, *b as u32, r as u32]) && has(&p, &[58, 2, *b as u32, r as u32, g as u32]);
+                    let p8 = sgr_params(&enc(ColorDepth::EightBit, TerminalCommand::FaceModify(all))).unwrap_or_default();
+                    let alone = |m: FaceModify| sgr_params(&enc(ColorDepth::EightBit, TerminalCommand::FaceModify(m))).unwrap_or_default();
+                    let f1 = alone(FaceModify { fg: Some(c), ..FaceModify::default() });
+                    let b1 = alone(FaceModify { bg: Some(c2), ..FaceModify::default() });
+                    let u1 = alone(FaceModify { underline_color: Some(c3), ..FaceModify::default() });
+                    ok &= f1.len() == 3 && b1.len() == 3 && u1.len() == 3 && has(&p8, &f1) && has(&p8, &b1) && has(&p8, &u1);
+                }
             }
             (e8f, e8b, e8u, gf, gb, tcf, ok)
         });
